@@ -150,6 +150,13 @@ PENDING_REASON = 'not claimed yet: model, theorems and correspondence for this p
 
 ALL = ['C%02d' % i for i in range(1, 21)]
 
+# properties whose Properties/<pid>.v carries the obligation over the inventory of constants regenerated from the source (tools/mkprops.py, vlib/ctx.py)
+CONST_PROPS = ('C03', 'C05', 'C11', 'C12', 'C17', 'C19', 'C20')
+CONST_TEXT = (' Translator tie: tools/gotools/consts regenerates Gen/Consts.v and Gen/ConstsF.v from the source on every run (every package-level string constant, '
+              'every non-zero floating-point literal with its exact decimal value and its binary64); the obligations consts_agree_now (Properties, exact rationals: '
+              'each literal is a classified constant of the model with the same value, each constant the model uses is still in its package, the names the model dispatches on are the declared ones) '
+              'and consts_agree_F_now (Proofs/ConstSitesF.v: the binary64 equals the constant of the executed instance bit by bit) are re-checked; a changed or new constant breaks them and the replay names it.')
+
 
 def build():
     checks = []
@@ -157,6 +164,8 @@ def build():
         if pid not in CLAIMED:
             continue
         c = CLAIMED[pid]
+        if pid in CONST_PROPS:
+            c = dict(c, text=c['text'] + CONST_TEXT, technique=c['technique'] + ' + regenerated constants inventory obligation')
         checks.append({
             'property_id': pid,
             'quick_cmd': './check %s --tier quick' % pid,
